@@ -5,6 +5,12 @@ V = os.path.dirname(os.path.dirname(os.path.abspath(__file__)))
 
 CLAIMED = {
     # id: (technique, level text, level note, design_ref)
+    "C01": ("Lean 4 theorems about a model of Table.Dispatch and the route Dispatch loops (arbitrary filters) + exact differential validation against real tables",
+            "proof: Crng.Props.C01.routes_exact, unroutable_iff, sendAll_exact, sendFirst_exact, blacklisted_nowhere, outcome_partition for every table and line. Correspondence (spec-exact stream): generated tables (blacklist, rewriters incl. regex rules, aggregators, capture / sendAllMatch / sendFirstMatch routes whose down destinations are identified by their drop counters) x generated lines: routes, destinations, delivered line and the in/invalid/blacklist/unroutable counters identical on the real table and the model; a disagreement is reported with the shrunk line as failing input.",
+            "trusted: Lean kernel; harness+driver plumbing; model-side regex engine Crng/Rx.lean (validated against Go regexp in C03's rx stream); kafka/pubsub/cloudwatch/grafanaNet/consistent-hashing routes only through their Match; delivery inside a destination is C05-C07.", "§5 C01"),
+    "C03": ("Lean 4 theorems: prefix soundness over all regex ASTs, Match = six-condition conjunction, cache transparency over all histories; regenerated call-site facts; differential validation of matcher, prefix derivation and table-level filters",
+            "proof: Crng.Props.C03.soundPrefix_sound, prefixOK_of_le, match_eq_conj6, agg_filter_complete, cache_transparent. Regenerated obligations (Crng.Tie.C03): all five Match call sites of the dispatch path pass the name; the aggregator consults PreMatch and MatchRegexAndExpand; the match cache is keyed by the name. Correspondence: real Matcher.Match vs model on generated option sets; derived prefix (read by reflection) <+: soundPrefix of the tree Go's parser produced, on names generated from that tree; table-level filters that could hit value/timestamp text; cache on/off. Monitors: conj6 with Go regexp directly; every matched name starts with the derived prefix.",
+            "trusted: Lean kernel; harness+driver plumbing; Go's regexp/syntax parser (string -> tree) and matcher are external: the AST theorem is tied per sampled source; cache expiry timing is modelled as arbitrary deletions.", "§5 C03, App. C"),
     "C05": ("Lean 4 theorems over all op sequences / buffer sizes / socket behaviours of a statement-level model of destination/bufwriter.go and Conn.Write + exact differential validation against the real Writer, Pickle and a real Destination on loopback",
             "proof: Crng.Props.C05.stream_invariant, socket_prefix, healthy_stream, healthy_lines, pickle_frame (+ Crng.Pk.unpickle_pickle). Correspondence: real destination.Writer under scripted full/short/failing sockets (nn, err, Buffered, socket bytes after every op), destination.Pickle bytes, and a real Destination -> loopback endpoint (iobuf from 1 byte, connbuf, flush 1..50 ms, lines up to 3x iobuf) byte-identical to the model; model-free monitors check order/once/newline/length-prefix and drop accounting.",
             "trusted: Lean kernel; harness+driver plumbing; kernel TCP delivers what was written; the interleaving of HandleData's select is explored by timing only (the theorem covers every interleaving of writes and flushes of the model).", "§5 C05"),
